@@ -243,7 +243,12 @@ PROPS["C05"] = {
     "replay": {f: SCHEDULE for f in [G + "TreeGitStore._import_one", G + "TreeGitStore.delete_one", G + "GitStore._check_duplicate"]},
     "standins": {f: {"driver": SCHEDULE, "bound": _SCHED_BOUND} for f in [G + "TreeGitStore._import_one", G + "TreeGitStore.delete_one",
                                                                            G + "GitStore._check_duplicate"]},
-    "bounded_always": {"xandikos.store.git.GitStore.import_one": {"driver": SCHEDULE, "bound": _SCHED_BOUND}},
+    "bounded_always": {"xandikos.store.git.GitStore.import_one": {"driver": SCHEDULE, "bound": _SCHED_BOUND},
+                       "sequential histories through two store objects (processes) on one directory": {
+                           "driver": "store_explore.py",
+                           "bound": "histories of <= 5 store operations (quick: 4 fixed skeletons + 250 seeded samples per back end) in which the "
+                                    "acting store object switches between two objects opened on the same directory: what one process keeps in "
+                                    "memory (uid map, tags) must not be trusted across another process's writes"}},
 }
 DISCOVERY = "discovery_explore.py"
 _DISC_BOUND = ("2 front ends, started through their real entry points (xandikos.web.main up to socket setup; import of xandikos.wsgi) x 4 "
@@ -357,8 +362,8 @@ _GAPS = {
     "C07": "sync-collection requests that are not of the usual shape (sync-token, sync-level, prop in this order) or carry DAV:limit; the "
            "properties shown for a *changed* member (only those that differ are shown; for a created member all requested ones are, and "
            "that is under contract); serialisation of the multistatus.",
-    "C08": "the getctag / sync-token property handlers themselves (one-line wrappers); PROPFIND ({DAV:}prop, Depth 0/1), "
-           "get_property_from_element and StoreBasedCollection.get_ctag / get_sync_token / get_etag are under contract.",
+    "C08": "the allprop form of PROPFIND and the serialisation of the multistatus; the getctag / sync-token property handlers, PROPFIND "
+           "({DAV:}prop, Depth 0/1), get_property_from_element and StoreBasedCollection.get_ctag / get_sync_token / get_etag are under contract.",
     "C09": "GitStore.create / open (the representation invariant is assumed of the repository found on disk).",
     "C13": "the two front ends up to the request path they hand to the application (WSGIRequest is under contract for headers and "
            "path_info decoding); dulwich's own file access below the repository path it is given.",
@@ -376,6 +381,11 @@ for _pid in ("C07", "C11", "C12", "C17"):
     PROPS[_pid]["functions"] += ["xandikos.webdav.ReportMethod.handle"]
 PROPS["C17"]["functions"] += ["xandikos.davcommon.MultiGetReporter.report"]
 PROPS["C07"]["functions"] += ["xandikos.sync.SyncCollectionReporter.report"]
+PROPS["C08"]["functions"] += ["xandikos.webdav.GetCTagProperty.get_value", "xandikos.sync.SyncTokenProperty.get_value"]
+PROPS["C07"]["functions"] += ["xandikos.sync.SyncTokenProperty.get_value"]
+# C09: a property write is a commit too (one iff the stored bytes differ)
+PROPS["C09"]["functions"] += ["xandikos.store.git.GitStore.config.<locals>.save_config",
+                              "xandikos.store.git.BareGitStore._import_one@metadata", "xandikos.store.git.TreeGitStore._import_one@metadata"]
 # refinement checks: the git stores' own bodies against the *interface* contracts the generic code is verified with
 _RF = "xandikos.store.git."
 PROPS["C01"]["functions"] += [_RF + c + m for c in ("BareGitStore", "TreeGitStore") for m in ("._import_one@iface", ".delete_one@iface")]
